@@ -6,6 +6,7 @@ export CARGO_NET_OFFLINE=true
 [ -f /repo/Cargo.lock ] && cp /repo/Cargo.lock harness/Cargo.lock
 (cd harness && cargo build --offline -q --workspace)
 # syntax/semantic check of every specification module
+python3 lib/slices.py >/dev/null
 for f in spec/*.tla; do
   (cd spec && tla-sany "$(basename "$f")" >/dev/null 2>&1) || { echo "SANY failed on $f" >&2; exit 2; }
 done
